@@ -43,8 +43,8 @@ TRUSTED = [
 ]
 ASSUMPTIONS = ['callers do not mutate the collections they are handed (no consumer in mitxgraders does)',
                'single-threaded use of the shared parser',
-               'names_exact is stated for strings whose token stream is the rendering of a derivation and whose brackets balance '
-               '(both hypotheses are decidable and are checked in Coq for every generated case)']
+               'names_exact is stated for strings whose token stream (Model/Lexer.v) is the rendering of a derivation; the hypothesis '
+               'is decidable and is checked in Coq for every generated case; C10_reported_names_exact covers every accepted string']
 
 _IMPL = {}
 
